@@ -138,6 +138,47 @@ def Entails (f : Cnf) (c : Clause) : Prop := ∀ σ, cnfTrue σ f = true → cla
 /-- decision procedure for `Entails f c` through the reference DPLL: `f ∧ ¬c` is unsatisfiable -/
 def entailsB (f : Cnf) (c : Clause) : Bool := !solve (c.map (fun l => [-l]) ++ f)
 
+/-! ### a unit-propagation refutation checker (used by the CDCL mirror to certify INFEASIBLE) -/
+
+/-- value of a literal under a partial assignment stored as `0 = False, 1 = True, other = unassigned`
+per variable (out of range = unassigned) -/
+def litValA (a : Array Nat) (l : Int) : Option Bool :=
+  match a[l.natAbs]? with
+  | some 1 => some (decide (0 < l))
+  | some 0 => some (!decide (0 < l))
+  | _ => none
+
+/-- one pass over the clauses: `none` = a clause with every literal false was met; otherwise the
+extended assignment and whether a unit clause fired -/
+def upPass : List Clause → Array Nat → Bool → Option (Array Nat × Bool)
+  | [], a, ch => some (a, ch)
+  | c :: cs, a, ch =>
+    if c.any (fun l => litValA a l == some true) then upPass cs a ch else
+      match c.filter (fun l => litValA a l == none) with
+      | [] => none
+      | [l] => upPass cs (a.setIfInBounds l.natAbs (if 0 < l then 1 else 0)) true
+      | _ => upPass cs a ch
+
+/-- repeat `upPass` until a conflict (`true`), a fixpoint or the fuel runs out (`false`) -/
+def upLoop : Nat → List Clause → Array Nat → Bool
+  | 0, _, _ => false
+  | fuel + 1, cs, a =>
+    match upPass cs a false with
+    | none => true
+    | some (a', ch) => if ch then upLoop fuel cs a' else false
+
+/-- `true` ⇒ unit propagation alone refutes `cs` (variables `0..n`) -/
+def upRefutes (n : Nat) (cs : List Clause) : Bool := upLoop (n + 2) cs (Array.replicate (n + 1) 2)
+
+/-- `l` occurs in the clauses or among the assumptions -/
+def occursB (f : Cnf) (as : List Int) (l : Int) : Bool := f.any (·.contains l) || as.contains l
+
+/-- the pure literals of formula + assumptions over the variables `1..n` -/
+def pureUnits (f : Cnf) (as : List Int) (n : Nat) : List Int :=
+  (List.range' 1 n).flatMap fun (v : Nat) =>
+    (if occursB f as (v : Int) && !occursB f as (-(v : Int)) then [(v : Int)] else []) ++
+    (if occursB f as (-(v : Int)) && !occursB f as (v : Int) then [-(v : Int)] else [])
+
 /-! ### Luby -/
 
 /-- `luby(i)` of `solvor/sat.py`: the regenerated loop with fuel `2*i+2` -/
